@@ -26,6 +26,8 @@ def build_die(d: dict, entry: str = "tree"):
         nl = Netlist(nt)
         if d.get("assign"):
             nl.assign_rectangles({k: [list(r) for r in v] for k, v in d["assign"].items()})
+        for name in d.get("release") or []:
+            nl.get_module(name).is_fixed = False      # a fixed module released through the public setter before the die is built
     if entry == "string":
         src = f"{gd.yaml_num(d['W'])}x{gd.yaml_num(d['H'])}"
     elif entry == "text":
@@ -36,7 +38,7 @@ def build_die(d: dict, entry: str = "tree"):
     elif entry == "file":
         scratch = os.environ.get("FV_SCRATCH", "/tmp")
         _tmp_counter[0] += 1
-        path = os.path.join(scratch, f"die_{os.getpid()}_{_tmp_counter[0]}.yaml")
+        path = os.path.join(scratch, f"die_{os.getpid()}.yaml")      # the same path every time: rewritten files must be read as they are now
         with open(path, "w") as f:
             f.write(gd.die_text(d))
         try:
